@@ -345,3 +345,22 @@ Proof.
   split; [rewrite (st_depth _ _ _ S); reflexivity|].
   split; [exact F|]. split; reflexivity.
 Qed.
+
+(* ---------------------------------------------------------------------------------------- *)
+(* the CST leaves are exactly the token positions                                             *)
+(* ---------------------------------------------------------------------------------------- *)
+Lemma parse_leaves : forall fuel ts root es ms,
+  Forall (fun t => tk t <> KEof) ts ->
+  parse_with fuel ts = POk root es ms -> leaves root = seq 0 (length ts).
+Proof.
+  intros fuel ts root es ms Hne H.
+  destruct (parse_ok_facts _ _ _ _ _ H) as [st1 [E [I [Ae [D [F _]]]]]].
+  assert (N1 : NoEof st1).
+  { eapply (exec_noeof (run fuel) (run_noeof fuel) while_program 0 None _ st1); [reflexivity | | exact E]. exact Hne. }
+  assert (R : rest st1 = []).
+  { unfold is_at_end, peek in Ae. unfold NoEof in N1. destruct (rest st1) as [|t r]; [reflexivity|].
+    inversion N1; subst. apply tk_eqb_eq in Ae. congruence. }
+  pose proof (inv_leaves _ _ I) as Lv. rewrite R in Lv. cbn [length] in Lv. rewrite Nat.sub_0_r in Lv.
+  destruct (stack st1) as [|[k ch] [|f r]]; cbn [length] in D; try discriminate.
+  cbn [b_finish snd] in F. injection F as <-. rewrite leaves_node. cbn [stack_leaves snd app] in Lv. exact Lv.
+Qed.
